@@ -250,13 +250,13 @@ def dir_histories(ctx, sc, C, dist):
     INTO THE SAME DIRECTORY (same n-gram size + alphabet + encoding with other lines; only the levels edited; only one file
     edited; another n-gram size; another alphabet; sometimes a third model or back to the first), loaded again by the same
     process and by a new interpreter: every level must be the brute-force level of the files now on disk."""
-    n = ctx.scale(14, 120)
+    n = ctx.scale(30, 200)
     hists = [omen_history.gen_history(ctx.rng, ctx.scale(1500, 4000)) for _ in range(n)]
     vio, finals = omen_history.run_histories(hists, sc, C["omen_optimizer_max_length"], ctx.rng, ctx.scale(8, 12),
                                              ctx.scale(3000, 10000), dist)
     dist["dir_histories"] = len(hists)
     # the final in-process loads also go to Coq: model of the LAST files against what the loader built / the generator emitted
-    ncoq = ctx.scale(6, 24)
+    ncoq = ctx.scale(8, 24)
     cases = [omen_history.coq_case_of(h, res) for h, res in finals[:ncoq]]
     dist["dir_history_coq_cases"] = len(cases)
     return vio, cases
